@@ -70,6 +70,18 @@ RProds ==
          Pr("flat:sizeofadd", <<T("("), T("int"), T(")"), T("sizeof"), T("x"), T("+"), N("Rp")>>),
          Pr("flat:comma3", <<T("("), N("Rp"), T(","), N("Rp"), T(","), N("Rp"), T(")")>>),
          Pr("flat:memberpost", <<T("ps"), T("->"), T("a"), T("++")>>), Pr("flat:addrmember", <<T("*"), T("&"), T("gs"), T("."), T("a")>>) }
+  \* adjacent operators that would lex differently if the generator dropped the parentheses (or the blank) between
+  \* them: - -a / --a, + +a / ++a, a - -b, a-- - b, a / *p ...
+  \cup { Pr("flat:uu" \o a \o b, <<T(a), T("("), T(b), N("Rp"), T(")")>>) : a \in {"-", "+", "!", "~"}, b \in {"-", "+", "!", "~"} }
+  \cup { Pr("flat:upre" \o a \o b, <<T(a), T("("), T(b), N("L"), T(")")>>) : a \in {"-", "+", "!", "~"}, b \in {"++", "--"} }
+  \cup { Pr("flat:upost" \o a \o b, <<T(a), T("("), T("("), N("L"), T(")"), T(b), T(")")>>) : a \in {"-", "+", "!", "~"}, b \in {"++", "--"} }
+  \cup { Pr("flat:binun" \o a \o b, <<N("Rp"), T(a), T("("), T(b), N("Rp"), T(")")>>) : a \in {"-", "+", "*", "&", "<<"}, b \in {"-", "+", "~", "!"} }
+  \cup { Pr("flat:binpre" \o a \o b, <<N("Rp"), T(a), T("("), T(b), N("L"), T(")")>>) : a \in {"-", "+"}, b \in {"++", "--"} }
+  \cup { Pr("flat:postbin" \o a \o b, <<T("("), T("("), N("L"), T(")"), T(a), T(")"), T(b), N("Rp")>>) : a \in {"++", "--"}, b \in {"-", "+"} }
+  \cup { Pr("flat:postbinpre" \o a, <<T("("), T("x"), T(a), T(")"), T(SubSeq(a, 1, 1)), T("("), T(a), T("y"), T(")")>>) : a \in {"++", "--"} }
+  \cup { Pr("flat:divderef", <<N("Rp"), T("/"), T("("), T("*"), T("gp"), T(")")>>), Pr("flat:mulderef", <<N("Rp"), T("*"), T("("), T("*"), T("gp"), T(")")>>),
+         Pr("flat:andaddr", <<T("("), T("gp"), T("=="), T("("), T("&"), T("x"), T(")"), T(")"), T("&"), T("("), T("&"), T("y"), T("!="), T("gp"), T(")")>>),
+         Pr("flat:derefderef", <<T("*"), T("("), T("*"), T("("), T("&"), T("gp"), T(")"), T(")")>>) }
   \cup { Pr("flat3:" \o a \o b, <<N("Rp"), T(a), N("Rp"), T(b), N("Rp")>>) :
            a \in {"-", "/", "+", "*", "<<", "&", "|", "^", "<", "==", "&&", "||", "%", ">>"},
            b \in {"-", "/", "+", "*", "<<", "&", "|", "^", "<", "==", "&&", "||", "%", ">>"} }
